@@ -291,7 +291,7 @@ package evaluator
 //@     invariant forall k Int :: {at(heap, x, k)} 0 <= k && k < iter ==> specEq(heap, at(heap, x, k), at(heap, y, k))
 //@   loop 2
 //@     invariant isObj(x0) && isObj(y0) && x == obj(x0) && y == obj(y0) && mlen(heap, x) == mlen(heap, y)
-//@     invariant[C20 C15] forall k Int :: {it_seen[k]} it_seen[k] ==> mhasKey(heap, y, k) && specEq(heap, mgetKey(heap, x, k), mgetKey(heap, y, k))
+//@     invariant[C20 C15 C01] forall k Int :: {it_seen[k]} it_seen[k] ==> mhasKey(heap, y, k) && specEq(heap, mgetKey(heap, x, k), mgetKey(heap, y, k))
 
 //@ func contains
 //@   tags C20 C02
